@@ -2,7 +2,10 @@ use crate::kinematic_traits::{Joints, Kinematics};
 use crate::kinematics_with_shape::KinematicsWithShape;
 use crate::rrt_to::{dual_rrt_connect};
 use crate::utils::dump_joints;
+#[cfg(not(rs_opw_kinematics_verif))]
 use std::sync::atomic::{AtomicBool};
+#[cfg(rs_opw_kinematics_verif)]
+use shuttle::sync::atomic::{AtomicBool};
 use std::time::Instant;
 
 #[derive(Debug)]
